@@ -41,6 +41,9 @@ fn jr(v: &[Rat]) -> Value { Value::from(v.iter().map(|x| jrat(*x)).collect::<Vec
 type DivOut<T> = Result<Result<(Polynomial<T>, Polynomial<T>), &'static str>, String>;
 
 fn exact_event(case: &Value, ty: &str, u: &[Rat], v: &[Rat], res: Result<Result<(Vec<Option<Rat>>, Vec<Option<Rat>>), &'static str>, String>, out: &mut Out) {
+    exact_event_x(case, ty, u, v, res, out, &|_| {})
+}
+fn exact_event_x(case: &Value, ty: &str, u: &[Rat], v: &[Rat], res: Result<Result<(Vec<Option<Rat>>, Vec<Option<Rat>>), &'static str>, String>, out: &mut Out, extra: &dyn Fn(&mut Value)) {
     let mut e = json!({"op": "polydiv", "kind": "exact", "ty": ty, "cid": geti(case, "cid"), "u": jr(u), "v": jr(v), "panic": false, "ok": false, "fits": true, "q": [], "r": [], "err": ""});
     match res {
         Err(_) => e["panic"] = json!(true),
@@ -52,6 +55,7 @@ fn exact_event(case: &Value, ty: &str, u: &[Rat], v: &[Rat], res: Result<Result<
             if fits { e["q"] = jr(&q.iter().map(|x| x.unwrap()).collect::<Vec<Rat>>()); e["r"] = jr(&r.iter().map(|x| x.unwrap()).collect::<Vec<Rat>>()); }
         }
     }
+    extra(&mut e);
     out.ev(e);
 }
 
@@ -94,7 +98,38 @@ fn float_event(case: &Value, ty: &str, u: &[(f64, f64)], v: &[(f64, f64)], res: 
     out.ev(e);
 }
 
+/// Sequence on ONE object (integer data): the object is used as dividend ("div") and as divisor ("divby") of a fixed second polynomial,
+/// mutated through IndexMut / coeffs() / trim, and used again; each result is judged against the CURRENT coefficients (tracked in a plain Vec).
+fn run_seq<T: Copy + ohsl::Number + ohsl::Signed + std::fmt::Debug + 'static>(case: &Value, out: &mut Out, ty: &str, mk: &dyn Fn(i64) -> T, back: &dyn Fn(T) -> Option<Rat>) {
+    let mut mv: Vec<i64> = ivec(&case["u"]);
+    let mut obj = Polynomial::<T>::new(mv.iter().map(|x| mk(*x)).collect());
+    let wv: Vec<i64> = ivec(&case["w"]); let w = Polynomial::<T>::new(wv.iter().map(|x| mk(*x)).collect());
+    // the dividend used when the object is the divisor: longer than the object, so that the division loop really runs
+    let bv: Vec<i64> = ivec(&case["wb"]); let wb = Polynomial::<T>::new(bv.iter().map(|x| mk(*x)).collect());
+    let rats = |v: &[i64]| v.iter().map(|x| Rat::int(*x)).collect::<Vec<Rat>>();
+    for (k, st) in case["steps"].as_array().unwrap().iter().enumerate() {
+        match gets(st, "op") {
+            "set" => { let i = getu(st, "i"); obj[i] = mk(geti(st, "v")); mv[i] = geti(st, "v"); }
+            "cset" => { let i = getu(st, "i"); obj.coeffs()[i] = mk(geti(st, "v")); mv[i] = geti(st, "v"); }
+            "push" => { obj.coeffs().push(mk(geti(st, "v"))); mv.push(geti(st, "v")); }
+            "pop" => { obj.coeffs().pop(); mv.pop(); }
+            "trim" => { obj.trim(); while mv.len() > 1 && mv[mv.len() - 1] == 0 { mv.pop(); } }
+            op @ ("div" | "divby") => {
+                let r: DivOut<T> = guarded(|| if op == "div" { obj.polydiv(&w) } else { wb.polydiv(&obj) });
+                let synced = obj.size() == mv.len() && (0..mv.len()).all(|i| obj[i] == mk(mv[i]));
+                let (u, v) = if op == "div" { (rats(&mv), rats(&wv)) } else { (rats(&bv), rats(&mv)) };
+                exact_event_x(case, ty, &u, &v, r.map(|x| x.map(|(q, r)| (coeffs(&q).into_iter().map(|c| back(c)).collect(), coeffs(&r).into_iter().map(|c| back(c)).collect()))), out,
+                              &|e| { e["step"] = json!(k); e["role"] = json!(op); e["synced"] = json!(synced); });
+            }
+            o => { eprintln!("TOOL-ERROR unknown polydiv step {}", o); std::process::exit(2) }
+        }
+    }
+}
+
 pub fn exec(case: &Value, out: &mut Out) {
+    if case.get("steps").is_some() {
+        return match gets(case, "ty") { "rat" => run_seq::<Rat>(case, out, "rat", &|x| Rat::int(x), &|c| Some(c)), _ => run_seq::<f64>(case, out, "f64x", &|x| x as f64, &|c| f64_to_rat(c)) };
+    }
     match gets(case, "ty") {
         "rat" => {
             let (u, v) = (rat_poly(&case["u"]), rat_poly(&case["v"]));
@@ -226,6 +261,7 @@ pub fn gen(tier: &str, seed: u64, out: &mut Out) {
         }
     }
     gen_special(quick, &mut rng, out, &mut push);
+    gen_sequences(quick, &mut rng, out, &mut push);
 }
 
 // ------------------------------------------------------------------ special exact values (leads of modulus 1, monomial divisors, 0 / 1 / -1 in every position)
@@ -327,4 +363,42 @@ fn gen_special(quick: bool, rng: &mut StdRng, out: &mut Out, push: &mut dyn FnMu
             if division_is_small(&ur, &vr) { push(out, json!({"ty": if k % 2 == 0 { "f64x" } else { "rat" }, "u": ue, "v": ve})); break; }
         }
     } } }
+}
+
+/// (s5) sequences on one object: polydiv as dividend and as divisor, before and after every mutator
+fn gen_sequences(quick: bool, rng: &mut StdRng, out: &mut Out, push: &mut dyn FnMut(&mut Out, Value)) {
+    let unit = |rng: &mut StdRng| [1i64, -1][rng.gen_range(0..2)];
+    let rats = |v: &[i64]| v.iter().map(|x| Rat::int(*x)).collect::<Vec<Rat>>();
+    let want = if quick { 24 } else { 300 }; let mut made = 0; let mut tries = 0;
+    while made < want {
+        tries += 1; if tries > 100 * want { eprintln!("TOOL-ERROR polydiv gen: cannot build sequences"); std::process::exit(2); }
+        let lim = if tries % 2 == 0 { 3 } else { 2 };
+        let len = rng.gen_range(3..=6usize); let lw = rng.gen_range(1..=3usize);
+        let mut cur = int_coeffs(rng, len, lim); cur[len - 1] = unit(rng);
+        let mut w = int_coeffs(rng, lw, lim); w[lw - 1] = unit(rng);
+        let wb = int_coeffs(rng, 9, lim);
+        let u0 = cur.clone();
+        let mut ok = true;
+        let mut steps: Vec<Value> = vec![];
+        let mut obs = |steps: &mut Vec<Value>, cur: &Vec<i64>, ok: &mut bool| {
+            for op in ["div", "divby", "div"] { steps.push(json!({"op": op})); }
+            if !division_is_small(&rats(cur), &rats(&w)) || !division_is_small(&rats(&wb), &rats(cur)) { *ok = false; }
+        };
+        obs(&mut steps, &cur, &mut ok);
+        let order = [[0usize, 1, 2, 3], [2, 3, 0, 1], [1, 3, 2, 0], [3, 0, 1, 2]][made % 4];
+        for m in order {
+            match m {
+                0 | 1 => { let i = rng.gen_range(0..cur.len() - 1); let v = if cur[i] >= 0 { -cur[i] - 1 } else { -cur[i] + 1 }; cur[i] = v; steps.push(json!({"op": if m == 0 { "set" } else { "cset" }, "i": i, "v": v})); }
+                2 => { let v = unit(rng); cur.push(v); steps.push(json!({"op": "push", "v": v})); }
+                _ => { if cur.len() > 2 { let l = cur.len() - 2; let v = unit(rng); cur[l] = v; steps.push(json!({"op": "set", "i": l, "v": v})); cur.pop(); steps.push(json!({"op": "pop"})); }
+                       else { cur[0] = -cur[0] + 1; steps.push(json!({"op": "cset", "i": 0, "v": cur[0]})); } }
+            }
+            obs(&mut steps, &cur, &mut ok);
+        }
+        if cur.len() > 2 { let l = cur.len() - 1; let v = unit(rng); cur[l - 1] = v; steps.push(json!({"op": "cset", "i": l - 1, "v": v}));
+            cur[l] = 0; steps.push(json!({"op": "set", "i": l, "v": 0})); cur.pop(); steps.push(json!({"op": "trim"})); obs(&mut steps, &cur, &mut ok); }
+        if !ok { continue; }
+        push(out, json!({"ty": if made % 2 == 0 { "rat" } else { "f64x" }, "u": u0, "w": w, "wb": wb, "v": [], "steps": steps}));
+        made += 1;
+    }
 }
